@@ -29,12 +29,16 @@ func init() {
 	mon.Register(&mon.Property{
 		ID:    "C02",
 		Level: "exploration",
-		Rule: "requirement structures (global or per-operation; 1..4 alternatives of 1..3 of the schemes S1..S5 with scopes; the empty alternative at any position; some schemes without a registered authenticator; authorizer absent/accepting/denying plain/denying with own status; a quarter of the APIs hold 2..3 operations (or the API-wide list and operations) whose requirements are different groupings of ONE list of 2..4 (scheme, scopes) entries, e.g. A AND B next to A OR B; methods POST/PUT/PATCH/DELETE/GET, static paths and paths with a parameter) " +
-			"x per-scheme outcome vectors read by scripted authenticators from request headers (n=not applicable, a=accept with principal, g:<scopes>=accept only requirements whose scopes are all granted else reject 403, z=accept with nil principal, r=reject with 401/403/418; all 4^n vectors for n<=4 schemes, sampled beyond) " +
-			"x invalid/valid query parameter x body behind a counting consumer x (a quarter of the requests) something else wrong: unconsumed or unparsable Content-Type, unservable Accept, undecodable body; every structure is rebuilt several times (in-alternative order and the order in which the router visits the operations are map orders fixed at build) and driven through the full handler, through the same pipeline behind a middleware that already asked Context.Authorize, through Context.Authorize (which on success is asked again on the returned request and once more after ResetAuth, and after a refusal is asked again with the same request) and, on one build in six, through the exported RouteAuthenticators.Authenticate (the OR) and every RouteAuthenticator.Authenticate (one AND) on fresh matched routes; in a third of the structures the schemes yield principals that are not non-empty strings (*struct, map, the empty string, a typed-nil pointer), compared by identity. An anonymous admission must have consulted a scheme of every non-empty alternative whose schemes are all registered. " +
+		Rule: "requirement structures (global or per-operation; 1..4 alternatives of 1..3 of the schemes S1..S5 with scopes; the empty alternative at any position; some schemes without a registered authenticator; in a quarter of the APIs one or two alternatives also name a scheme U1/U2 that is NO security definition of the document (an AND of declared and undeclared schemes, now and then an alternative of its own; with or without an authenticator registered under that name; never scripted to accept) and is therefore never satisfied; in a quarter the definitions are a mix of oauth2, apiKey and basic; authorizer absent/accepting/denying with a plain error/denying with an errors.Error of code 401, 403, 409 or 503/denying with a plain error that wraps an errors.Error; a quarter of the APIs hold 2..3 operations (or the API-wide list and operations) whose requirements are different groupings of ONE list of 2..4 (scheme, scopes) entries, e.g. A AND B next to A OR B; methods POST/PUT/PATCH/DELETE/GET, static paths and paths with a parameter) " +
+			"x per-scheme outcome vectors read by scripted authenticators from request headers (n=not applicable, a=accept with principal, g:<scopes>=accept only requirements whose scopes are all granted else reject 403, z=accept with nil principal, r=reject with an errors.Error of code 401/403/418, with a 403 that still names the principal, or with a plain sentinel error that is no errors.Error and must come back as itself (errors.Is) from Context.Authorize and the exported Authenticate methods and as its text through the handler; all 4^n vectors for n<=4 schemes, sampled beyond) " +
+			"x invalid/valid query parameter x body behind a counting consumer x (a quarter of the requests) something else wrong: unconsumed or unparsable Content-Type, unservable Accept, undecodable body; every structure is rebuilt several times (in-alternative order and the order in which the router visits the operations are map orders fixed at build) and driven through the full handler, through the same pipeline behind a middleware that already asked Context.Authorize, through Context.Authorize (which on success is asked again on the returned request and once more after ResetAuth, and after a refusal is asked again with the same request) and, on one build in six, through the exported RouteAuthenticators.Authenticate (the OR) and every RouteAuthenticator.Authenticate (one AND) on fresh matched routes; in a third of the structures the schemes yield principals that are not non-empty strings (*struct, map, the empty string, a typed-nil pointer), compared by identity. An anonymous admission must have consulted a scheme of every non-empty alternative whose schemes are all declared and registered (how many consultations that takes is not judged). The authorizer must be shown a request with the served method and path; an admitted request that fails behind authentication (400/406/415/422) must reach the API's error responder carrying the warranted principal and the scopes of its alternative. A declared request for which RouteInfo finds no route is a violation, not a skip; an asking middleware that is handed no matched route looks the route up itself (classed). Probes (classed, never judged): per (structure, outcome vector) whether the builds of the structure gave different verdicts (probe:order-dependent-anonymous-admission: admitted in some builds, refused in others, with an empty alternative), whether refusal statuses differ between builds, whether the scopes slices handed to authenticators and askers are shared with later requests. " +
 			"Oracle over the observed authenticator call log. non-trivial = (structure hash, operation, outcome vector, observed call order) with >= 2 schemes in the operation's requirements or an empty alternative; distinct by that tuple",
 		Assumptions: []string{
-			"a scheme that would reject but was never consulted (an earlier scheme of the same alternative was not applicable, or an earlier alternative admitted) has rejected nothing",
+			"a scheme that would reject but was never consulted (an earlier scheme of the same alternative was not applicable, or an earlier alternative admitted) has rejected nothing; so for [{S1,S2},{}] with S1 not applicable and S2 rejecting both the anonymous admission (S1 asked first) and S2's error (S2 asked first) satisfy the statement, and which is given depends on a map order fixed when the router is built: counted under probe:order-dependent-anonymous-admission, not judged",
+			"a scheme named by a requirement that is no security definition of the document can never be satisfied; whether an authenticator registered under such a name may be consulted is not stated (it is never scripted to accept)",
+			"the status a rejection with an error that carries none is answered with through the handler is the error responder's and is not judged (its text is); whether an authorizer error that wraps an errors.Error carries that error's status is not stated (403 and the wrapped status are both accepted)",
+			"the request handed to the API's error responder for an admitted request that fails behind authentication is the request the handler would have been served with",
+			"callers that write to the scopes slices they are handed are outside the quantifier: sharing of those slices between requests is shown by a probe, not judged",
 			"which of several satisfied alternatives naming schemes admits, and which of several rejecting schemes' errors is reported, is not stated and not judged; when such an alternative is satisfied the principal is non-nil (the anonymous alternative next to it does not hide the identified caller)",
 			"what an admitted request with an unconsumed/unparsable Content-Type, an unservable Accept or an undecodable body is answered (415, 406, 400, 422) is judged by C06/C07/C03, not here; a refusal never carries one of these codes",
 			"the scripted authorizer decides independently of the principal; the principal it is shown is judged",
@@ -50,7 +54,7 @@ func init() {
 // Request is one scripted request.
 type Request struct {
 	Op       int               `json:"op"`
-	Outcomes map[string]string `json:"outcomes"` // scheme -> n | a | z | r401 | r403 | r418
+	Outcomes map[string]string `json:"outcomes"` // scheme -> n | a | g:<scopes> | z | r401 | r403 | r418 | rp403 | rplain
 	BadQuery bool              `json:"badQuery,omitempty"`
 	Body     bool              `json:"body,omitempty"`
 	// Variant makes something else wrong with the request (absent = nothing): ct-text (a media type the
@@ -61,9 +65,13 @@ type Request struct {
 
 // Case is a requirement structure, its registrations and the requests sent to it.
 type Case struct {
-	Desc       gen.Desc  `json:"desc"`
-	Registered []string  `json:"registered"`
-	Authorizer string    `json:"authorizer"` // none | accept | deny-plain | deny-403 | deny-409
+	Desc       gen.Desc `json:"desc"`
+	Registered []string `json:"registered"`
+	// Authorizer: none | accept | deny-plain (a plain error) | deny-<code> (an errors.Error of that code) |
+	// deny-wrapped-409 (a plain error wrapping an errors.Error of code 409).
+	// A scheme named by a requirement and absent from Desc.SecDefs is UNDECLARED: it is no security definition of
+	// the document, so nothing can ever find credentials for it (U1, U2 in generated cases).
+	Authorizer string    `json:"authorizer"`
 	Requests   []Request `json:"requests"`
 	Builds     int       `json:"builds"`
 	// PrincipalKinds: what kind of value a scheme's authenticator yields as principal (absent = the string
@@ -103,8 +111,17 @@ type sut struct {
 	asking     http.Handler
 	calls      []call
 	authzCalls []interface{}
+	authzReqs  []askedWith // the request each authorizer call was shown
+	errSeen    []carried   // what the request handed to the API's ServeError carried
 	handlerRan int
 	consumed   int
+	// askUnrouted: requests the asking middleware was handed without a matched route; askLost: those for which
+	// its own lookup found none either
+	askUnrouted, askLost int
+	// scribble: the authenticators overwrite the scopes slice they were handed after recording it (probe only)
+	scribble bool
+	// plain: the sentinel (not an errors.Error) each scheme rejects with under "rplain"
+	plain map[string]error
 	// princ: the principal each scheme yields in this build (never nil as an interface value)
 	princ map[string]interface{}
 }
@@ -154,9 +171,10 @@ func build(c *Case) (*sut, error) {
 	if err != nil {
 		return nil, err
 	}
-	s := &sut{c: c, princ: map[string]interface{}{}}
-	for _, name := range schemes {
+	s := &sut{c: c, princ: map[string]interface{}{}, plain: map[string]error{}}
+	for _, name := range allNames {
 		s.princ[name] = principalFor(c.PrincipalKinds[name], name)
+		s.plain[name] = errors.New("rejected-by-" + name + " (plain)")
 	}
 	api := untyped.NewAPI(doc)
 	api.RegisterConsumer("application/json", runtime.ConsumerFunc(func(r io.Reader, v interface{}) error {
@@ -171,6 +189,11 @@ func build(c *Case) (*sut, error) {
 			if strings.HasPrefix(out, "g:") { // a credential granting only some scopes
 				out = outcomeFor(out, sr.RequiredScopes)
 			}
+			if s.scribble { // probe: an authenticator that writes to the slice it was handed, once it has decided
+				for i := range sr.RequiredScopes {
+					sr.RequiredScopes[i] = scribbled
+				}
+			}
 			switch out {
 			case "a":
 				return true, s.princ[name], nil
@@ -184,32 +207,25 @@ func build(c *Case) (*sut, error) {
 				return true, nil, oerrors.New(418, "rejected-by-%s", name)
 			case "rp403": // a rejection that still names the identified user (e.g. insufficient scope)
 				return true, s.princ[name], oerrors.New(403, "rejected-by-%s", name)
+			case "rplain": // a rejection with an error that is no errors.Error (a sentinel, fmt.Errorf ...)
+				return true, nil, s.plain[name]
 			default:
 				return false, nil, nil
 			}
 		}))
 	}
-	switch c.Authorizer {
-	case "accept":
-		api.RegisterAuthorizer(runtime.AuthorizerFunc(func(_ *http.Request, p interface{}) error {
+	if c.Authorizer != "" && c.Authorizer != "none" {
+		answer := authorizerAnswer(c.Authorizer)
+		api.RegisterAuthorizer(runtime.AuthorizerFunc(func(r *http.Request, p interface{}) error {
 			s.authzCalls = append(s.authzCalls, p)
-			return nil
+			s.authzReqs = append(s.authzReqs, seenBy(r))
+			return answer
 		}))
-	case "deny-plain":
-		api.RegisterAuthorizer(runtime.AuthorizerFunc(func(_ *http.Request, p interface{}) error {
-			s.authzCalls = append(s.authzCalls, p)
-			return errors.New("authorizer-says-no")
-		}))
-	case "deny-403":
-		api.RegisterAuthorizer(runtime.AuthorizerFunc(func(_ *http.Request, p interface{}) error {
-			s.authzCalls = append(s.authzCalls, p)
-			return oerrors.New(403, "authorizer-says-no")
-		}))
-	case "deny-409":
-		api.RegisterAuthorizer(runtime.AuthorizerFunc(func(_ *http.Request, p interface{}) error {
-			s.authzCalls = append(s.authzCalls, p)
-			return oerrors.New(409, "authorizer-says-no")
-		}))
+	}
+	// what the request of an admitted call that fails behind authentication carries is seen by the error responder
+	api.ServeError = func(rw http.ResponseWriter, r *http.Request, err error) {
+		s.errSeen = append(s.errSeen, carriedBy(r))
+		oerrors.ServeError(rw, r, err)
 	}
 	for i := range c.Desc.Ops {
 		op := c.Desc.Ops[i]
@@ -226,6 +242,15 @@ func build(c *Case) (*sut, error) {
 		return http.HandlerFunc(func(w http.ResponseWriter, r *http.Request) {
 			if route := middleware.MatchedRouteFrom(r); route != nil {
 				_, _, _ = s.ctx.Authorize(r, route)
+			} else {
+				// not handed the matched route: the asker looks the route up itself (any middleware can), so that
+				// the entry point keeps its force; the request is passed on as it came
+				s.askUnrouted++
+				if rt, rr, ok := s.ctx.RouteInfo(r); ok && rt != nil {
+					_, _, _ = s.ctx.Authorize(rr, rt)
+				} else {
+					s.askLost++
+				}
 			}
 			next.ServeHTTP(w, r)
 		})
@@ -289,10 +314,7 @@ type verdict struct {
 }
 
 func judgeRef(c *Case, alts []gen.SecReq, out map[string]string) verdict {
-	reg := map[string]bool{}
-	for _, r := range c.Registered {
-		reg[r] = true
-	}
+	reg := usable(c)
 	var v verdict
 	seen := map[string]bool{}
 	for _, a := range alts {
@@ -346,6 +368,8 @@ func rejectCode(o string) int {
 		return 418
 	case "rp403":
 		return 403
+	case "rplain":
+		return anyStatus
 	}
 	return 0
 }
@@ -365,16 +389,16 @@ func runCase(m *mon.M, c *Case) {
 		b = append(b, pk...)
 	}
 	sh := fmt.Sprintf("%x", mon.Hash64(string(b)))
-	reg := map[string]bool{}
-	for _, r := range c.Registered {
-		reg[r] = true
-	}
+	reg := usable(c)
+	across := newAcross(len(c.Requests))
+	var last *sut
 	for bi := 0; bi < builds; bi++ {
 		s, err := build(c)
 		if err != nil {
 			m.Class("desc-rejected")
 			return
 		}
+		last = s
 		for ri := range c.Requests {
 			rq := &c.Requests[ri]
 			one := &Case{Desc: c.Desc, Registered: c.Registered, Authorizer: c.Authorizer, Requests: []Request{*rq}, Builds: 6, PrincipalKinds: c.PrincipalKinds}
@@ -382,12 +406,18 @@ func runCase(m *mon.M, c *Case) {
 			alts := alternatives(&c.Desc, op)
 			ref := judgeRef(c, alts, rq.Outcomes)
 			feat := features(c, alts, rq.Outcomes)
+			if strings.HasPrefix(feat, "alternative-with-undeclared-scheme") {
+				m.Class("input:alternative-with-undeclared-scheme")
+				if restAccepts(c, alts, rq.Outcomes) {
+					m.Class("input:undeclared-scheme-ANDed-with-schemes-that-all-accept")
+				}
+			}
 			if rq.Variant != "" {
 				feat += "+" + rq.Variant
 			}
 
 			// ---- entry point 1: the full handler ----
-			s.calls, s.authzCalls, s.handlerRan, s.consumed = nil, nil, 0, 0
+			s.reset()
 			rec := httptest.NewRecorder()
 			req := s.request(rq)
 			pv, st := mon.Catch(func() { s.handler.ServeHTTP(rec, req) })
@@ -401,12 +431,15 @@ func runCase(m *mon.M, c *Case) {
 				m.NT(sh + "|" + op.ID + "|" + outcomeKey(rq.Outcomes) + "|" + order)
 			}
 			m.SetAdd("call-orders", fmt.Sprintf("%s/%s:%s", sh[:6], op.ID, orderShape(s.calls)))
+			if len(alts) > 0 {
+				across.record(ri, passedAuthentication(s, rec.Code), rec.Code, callOrder(s.calls))
+			}
 			judgeHandler(m, c, s, rq, alts, ref, rec, feat, one, reg)
 
 			// ---- entry point 1b: the full handler behind a middleware that already asked Authorize ----
 			// What the earlier asker was told must not open the door: the handler still runs only on a warrant.
 			if len(alts) > 0 {
-				s.calls, s.authzCalls, s.handlerRan, s.consumed = nil, nil, 0, 0
+				s.reset()
 				recB := httptest.NewRecorder()
 				reqB := s.request(rq)
 				pv, st = mon.Catch(func() { s.asking.ServeHTTP(recB, reqB) })
@@ -415,10 +448,20 @@ func runCase(m *mon.M, c *Case) {
 					m.Violate("panic-behind-asking-middleware/"+feat, fmt.Sprintf("panic: %v\n%s", pv, st), one)
 					continue
 				}
+				if s.askLost > 0 {
+					// a request to a declared method and path for which the context finds no route at all
+					m.Violate("declared-request-not-routed/asking-middleware", fmt.Sprintf("op=%s %s %s: the middleware was handed no matched route and RouteInfo found none", op.ID, reqB.Method, reqB.URL.Path), one)
+					continue
+				}
+				if s.askUnrouted > 0 {
+					// visible, not judged here (that a Builder middleware is handed the matched route is C09's business);
+					// the asker looked the route up itself, so what follows keeps its force
+					m.Class("probe:asking-middleware-handed-no-matched-route")
+				}
 				rejectersB := consultedRejecters(s, rq.Outcomes)
 				warranted := len(ref.satisfied) > 0 || (ref.hasAnon && len(rejectersB) == 0)
 				denies := strings.HasPrefix(c.Authorizer, "deny")
-				passed := s.handlerRan > 0 || s.consumed > 0 || recB.Code == 422 || recB.Code == 415 || recB.Code == 406 || recB.Code == 400
+				passed := passedAuthentication(s, recB.Code)
 				if passed && (!warranted || denies) {
 					m.Violate("admitted-after-an-earlier-asker-was-refused/"+feat, fmt.Sprintf("op=%s alternatives=%v registered=%v authorizer=%s outcomes=%v calls=%s: a middleware called Context.Authorize (refused) and passed the request on: status %d, handler ran %d times, consumer %d",
 						c.Desc.Ops[rq.Op].ID, alts, c.Registered, c.Authorizer, rq.Outcomes, callOrder(s.calls), recB.Code, s.handlerRan, s.consumed), one)
@@ -432,7 +475,7 @@ func runCase(m *mon.M, c *Case) {
 			}
 
 			// ---- entry point 2: Context.Authorize ----
-			s.calls, s.authzCalls, s.handlerRan, s.consumed = nil, nil, 0, 0
+			s.reset()
 			req2 := s.request(rq)
 			var (
 				usr  interface{}
@@ -445,8 +488,7 @@ func runCase(m *mon.M, c *Case) {
 			)
 			pv, st = mon.Catch(func() {
 				route, rr, ok := s.ctx.RouteInfo(req2)
-				if !ok {
-					aerr = fmt.Errorf("route not found")
+				if !ok || route == nil {
 					return
 				}
 				route0, rr0 = route, rr
@@ -457,12 +499,18 @@ func runCase(m *mon.M, c *Case) {
 				m.Violate("authorize-panic/"+feat, fmt.Sprintf("panic: %v\n%s", pv, st), one)
 				continue
 			}
+			if route0 == nil {
+				// a request to a declared method and path that is not routed: nothing of it can be judged, and
+				// that is not passed over in silence
+				m.Violate("declared-request-not-routed/route-info", fmt.Sprintf("op=%s %s %s: RouteInfo found no route", op.ID, req2.Method, req2.URL.Path), one)
+				continue
+			}
 			firstOK := judgeAuthorize(m, "authorize", c, s, rq, alts, ref, usr, rq2, aerr, feat, one)
 			if firstOK && aerr != nil && route0 != nil && len(alts) > 0 {
 				// ---- entry point 2, after a refusal: the same asker asks again with the request it holds ----
 				// A refusal is no warrant: the second answer is held to the statement like the first, over the
 				// authenticators it consulted itself.
-				s.calls, s.authzCalls, s.handlerRan, s.consumed = nil, nil, 0, 0
+				s.reset()
 				var (
 					usrR  interface{}
 					rqR   *http.Request
@@ -491,7 +539,7 @@ func runCase(m *mon.M, c *Case) {
 			route := middleware.MatchedRouteFrom(rq2)
 			cur := rq2
 			for _, kind := range []string{"authorize-again", "authorize-after-reset"} {
-				s.calls, s.authzCalls, s.handlerRan, s.consumed = nil, nil, 0, 0
+				s.reset()
 				var (
 					usr3  interface{}
 					rq3   *http.Request
@@ -515,6 +563,10 @@ func runCase(m *mon.M, c *Case) {
 			}
 		}
 	}
+	across.report(m, c, builds)
+	if last != nil {
+		scribbleProbe(m, c, last)
+	}
 	if m.WantSample() {
 		sc := *c
 		if len(sc.Requests) > 4 {
@@ -530,10 +582,12 @@ func features(c *Case, alts []gen.SecReq, out map[string]string) string {
 	for _, r := range c.Registered {
 		reg[r] = true
 	}
-	unreg, nilp := false, false
+	unreg, nilp, undecl := false, false, false
 	for _, a := range alts {
 		for sch := range a {
-			if !reg[sch] {
+			if !declared(c, sch) {
+				undecl = true
+			} else if !reg[sch] {
 				unreg = true
 			} else if out[sch] == "z" && len(a) > 1 {
 				nilp = true
@@ -559,6 +613,8 @@ func features(c *Case, alts []gen.SecReq, out map[string]string) string {
 		suffix = "+principal-" + strings.Join(ks, "-")
 	}
 	switch {
+	case undecl:
+		return "alternative-with-undeclared-scheme" + suffix
 	case unreg:
 		return "alternative-with-unregistered-scheme" + suffix
 	case nilp:
@@ -572,7 +628,6 @@ func features(c *Case, alts []gen.SecReq, out map[string]string) string {
 // alternative that could apply is looked at before the empty alternative admits.
 func unlooked(s *sut, alts []gen.SecReq, reg map[string]bool) []gen.SecReq {
 	var miss []gen.SecReq
-	need := 0
 	for _, a := range alts {
 		if len(a) == 0 {
 			continue
@@ -586,7 +641,6 @@ func unlooked(s *sut, alts []gen.SecReq, reg map[string]bool) []gen.SecReq {
 		if !full {
 			continue
 		}
-		need++
 		looked := false
 		for _, cl := range s.calls {
 			if sc, in := a[cl.scheme]; in && strings.Join(sortedCopy(sc), ",") == strings.Join(sortedCopy(cl.scopes), ",") {
@@ -597,10 +651,8 @@ func unlooked(s *sut, alts []gen.SecReq, reg map[string]bool) []gen.SecReq {
 			miss = append(miss, a)
 		}
 	}
-	if len(miss) == 0 && len(s.calls) < need {
-		// one consultation cannot stand for two alternatives
-		miss = append(miss, gen.SecReq{})
-	}
+	// (How many consultations that takes is not stated: one answer of a scheme for given scopes may stand for
+	// every alternative that names the scheme with those scopes.)
 	return miss
 }
 
@@ -627,6 +679,8 @@ func outcomeKey(o map[string]string) string {
 	return sb.String()
 }
 
+// consultedRejecters: the consulted schemes that rejected, with the status of their error (anyStatus for a
+// rejection with an error that carries none).
 func consultedRejecters(s *sut, out map[string]string) map[string]int {
 	r := map[string]int{}
 	for _, c := range s.calls {
@@ -667,7 +721,7 @@ func judgeHandler(m *mon.M, c *Case, s *sut, rq *Request, alts []gen.SecReq, ref
 	authzDenies := strings.HasPrefix(c.Authorizer, "deny")
 	// the request got past authentication when something ran, or when the answer is one of the stages behind
 	// it (content-type gate 415, Accept negotiation 406, binding 400/422); no scripted refusal uses these codes
-	passedAuth := s.handlerRan > 0 || status == 422 || s.consumed > 0 || status == 415 || status == 406 || status == 400
+	passedAuth := passedAuthentication(s, status)
 
 	// every consulted scheme must be shown the scopes its requirement lists
 	for _, cl := range s.calls {
@@ -714,6 +768,12 @@ func judgeHandler(m *mon.M, c *Case, s *sut, rq *Request, alts []gen.SecReq, ref
 				m.Violate("authorizer-shown-unwarranted-principal/"+feat, desc(), one)
 				return
 			}
+			if !judgeAuthorizerRequest(m, s, rq, feat, desc, one) {
+				return
+			}
+		}
+		if !judgeCarried(m, s, ref, admittedBySatisfied, status, feat, desc, one) {
+			return
 		}
 		if rq.Variant != "" {
 			// admitted, and something else is wrong with the request: which answer that gets (415, 406, 422 ...)
@@ -757,11 +817,7 @@ func judgeHandler(m *mon.M, c *Case, s *sut, rq *Request, alts []gen.SecReq, ref
 	// (3) the refusal is the right one
 	switch {
 	case (admittedBySatisfied || admittedAnon) && authzDenies:
-		want := 403
-		if c.Authorizer == "deny-409" {
-			want = 409
-		}
-		if status != want || !strings.Contains(body, "authorizer-says-no") {
+		if !authorizerStatusOK(c.Authorizer, status) || !strings.Contains(body, "authorizer-says-no") {
 			m.Violate("authorizer-denial-wrong-answer/"+feat, desc(), one)
 			return
 		}
@@ -773,17 +829,32 @@ func judgeHandler(m *mon.M, c *Case, s *sut, rq *Request, alts []gen.SecReq, ref
 			m.Violate("authorizer-shown-unwarranted-principal/"+feat, desc(), one)
 			return
 		}
+		if !judgeAuthorizerRequest(m, s, rq, feat, desc, one) {
+			return
+		}
+		if c.Authorizer == "deny-wrapped-409" {
+			// whether an error that wraps one with a status "carries its own status" is not stated: either answer
+			m.Class(fmt.Sprintf("authorizer-wrapped-status-answered-%d", status))
+		}
 		m.Class("refused-by-authorizer")
 	case len(rejecters) > 0:
 		ok := false
+		plainOnly := true
 		for sch, code := range rejecters {
-			if status == code && strings.Contains(body, "rejected-by-"+sch) {
+			// an error without a status of its own is answered with the error responder's status: its text is judged
+			if (code == anyStatus || status == code) && strings.Contains(body, "rejected-by-"+sch) {
 				ok = true
+			}
+			if code != anyStatus {
+				plainOnly = false
 			}
 		}
 		if !ok {
 			m.Violate("refusal-not-a-rejecters-error/"+feat, desc(), one)
 			return
+		}
+		if plainOnly {
+			m.Class(fmt.Sprintf("refused-by-scheme-plain-error-%d", status))
 		}
 		m.Class("refused-by-scheme")
 	default:
@@ -855,11 +926,7 @@ func judgeAuthorize(m *mon.M, kind string, c *Case, s *sut, rq *Request, alts []
 			return false
 		}
 		if usr == nil {
-			reg := map[string]bool{}
-			for _, r := range c.Registered {
-				reg[r] = true
-			}
-			if miss := unlooked(s, alts, reg); len(miss) > 0 {
+			if miss := unlooked(s, alts, usable(c)); len(miss) > 0 {
 				m.Violate(kind+"-anonymous-admission-without-asking-an-alternative/"+feat, fmt.Sprintf("not consulted: %v ; %s", miss, desc()), one)
 				return false
 			}
@@ -904,18 +971,14 @@ func judgeAuthorize(m *mon.M, kind string, c *Case, s *sut, rq *Request, alts []
 	}
 	switch {
 	case warranted && authzDenies:
-		want := 403
-		if c.Authorizer == "deny-409" {
-			want = 409
-		}
-		if code != want || !strings.Contains(aerr.Error(), "authorizer-says-no") {
+		if !authorizerStatusOK(c.Authorizer, code) || !strings.Contains(aerr.Error(), "authorizer-says-no") {
 			m.Violate(kind+"-authorizer-denial-wrong-error/"+feat, desc(), one)
 			return false
 		}
 	case len(rejecters) > 0:
 		ok := false
 		for sch, rc := range rejecters {
-			if code == rc && strings.Contains(aerr.Error(), "rejected-by-"+sch) {
+			if isRejectionOf(s, sch, rc, aerr, code) {
 				ok = true
 			}
 		}
@@ -943,7 +1006,8 @@ func directCalls(m *mon.M, c *Case, s *sut, rq *Request, alts []gen.SecReq, ref 
 	}
 	fresh := func() (*middleware.MatchedRoute, *http.Request) {
 		route, rr, ok := s.ctx.RouteInfo(s.request(rq))
-		if !ok {
+		if !ok || route == nil {
+			m.Violate("declared-request-not-routed/route-info", fmt.Sprintf("op=%s: RouteInfo found no route", c.Desc.Ops[rq.Op].ID), one)
 			return nil, nil
 		}
 		return route, rr
@@ -957,7 +1021,7 @@ func directCalls(m *mon.M, c *Case, s *sut, rq *Request, alts []gen.SecReq, ref 
 	if route == nil {
 		return
 	}
-	s.calls, s.authzCalls, s.handlerRan, s.consumed = nil, nil, 0, 0
+	s.reset()
 	var (
 		applies bool
 		usr     interface{}
@@ -1019,7 +1083,7 @@ func directCalls(m *mon.M, c *Case, s *sut, rq *Request, alts []gen.SecReq, ref 
 		}
 		okErr := false
 		for sch, rc := range rejecters {
-			if err != nil && code == rc && strings.Contains(err.Error(), "rejected-by-"+sch) {
+			if err != nil && isRejectionOf(s, sch, rc, err, code) {
 				okErr = true
 			}
 		}
@@ -1050,8 +1114,11 @@ func directCalls(m *mon.M, c *Case, s *sut, rq *Request, alts []gen.SecReq, ref 
 		}
 		ra := route.Authenticators[i]
 		alt := alts[i]
-		s.calls, s.authzCalls, s.handlerRan, s.consumed = nil, nil, 0, 0
-		pv, st := mon.Catch(func() { applies, usr, err = ra.Authenticate(rr, route) })
+		s.reset()
+		pv, st := mon.Catch(func() {
+			applies, usr, err = ra.Authenticate(rr, route)
+			_ = ra.CommonScopes() // an accessor of the alternative: what it yields is not stated, reading it is harmless
+		})
 		m.Eval(1)
 		if pv != nil {
 			m.Violate("direct-and-panic/"+feat, fmt.Sprintf("panic: %v\n%s", pv, st), one)
@@ -1254,13 +1321,23 @@ func grant(r *rand.Rand) string {
 
 var outcomes = []string{"n", "a", "z", "r"}
 var variants = []string{"ct-text", "ct-malformed", "accept-text", "bad-json"}
-var rejectKinds = []string{"r401", "r403", "r418", "rp403"}
+var rejectKinds = []string{"r401", "r403", "r418", "rp403", "rplain"}
+var authorizers = []string{"none", "none", "none", "accept", "accept", "deny-plain", "deny-403", "deny-409", "deny-401", "deny-503", "deny-wrapped-409"}
 
 func genCase(r *rand.Rand, builds int, maxReq int) *Case {
 	d := gen.Desc{BasePath: "/", SecDefs: map[string]gen.SecDef{}}
+	otherTypes := r.Intn(4) == 0
 	for _, s := range schemes {
 		// oauth2 definitions carry the scopes; apiKey ones must have empty scope lists to be valid
 		d.SecDefs[s] = gen.SecDef{Type: "oauth2", Scopes: map[string]string{"read": "r", "write": "w", "admin": "a"}}
+		if otherTypes { // what kind of definition a scheme is changes nothing about how requirements are evaluated
+			switch r.Intn(3) {
+			case 0:
+				d.SecDefs[s] = gen.SecDef{Type: "apiKey", Name: "X-Key-" + s, In: []string{"header", "query"}[r.Intn(2)]}
+			case 1:
+				d.SecDefs[s] = gen.SecDef{Type: "basic"}
+			}
+		}
 	}
 	if r.Intn(2) == 0 {
 		d.Security = genAlts(r)
@@ -1296,16 +1373,25 @@ func genCase(r *rand.Rand, builds int, maxReq int) *Case {
 	if regroup {
 		regrouped(r, &d)
 	}
+	if r.Intn(4) == 0 {
+		undeclare(r, &d)
+	}
 	c := &Case{Desc: d, Builds: builds}
 	for _, s := range schemes {
 		if r.Intn(7) != 0 {
 			c.Registered = append(c.Registered, s)
 		}
 	}
-	c.Authorizer = []string{"none", "none", "accept", "deny-plain", "deny-403", "deny-409"}[r.Intn(6)]
+	for _, s := range undeclaredNames {
+		// an authenticator registered under a name that is no security definition of the document
+		if r.Intn(2) == 0 {
+			c.Registered = append(c.Registered, s)
+		}
+	}
+	c.Authorizer = authorizers[r.Intn(len(authorizers))]
 	if r.Intn(3) == 0 { // principals that are not non-empty strings
 		c.PrincipalKinds = map[string]string{}
-		for _, s := range schemes {
+		for _, s := range allNames {
 			if k := []string{"", "ptr", "map", "empty", "typednil"}[r.Intn(5)]; k != "" {
 				c.PrincipalKinds[s] = k
 			}
@@ -1325,17 +1411,34 @@ func genCase(r *rand.Rand, builds int, maxReq int) *Case {
 		}
 		sort.Strings(us)
 		var vecs []map[string]string
-		if len(us) <= 4 {
-			total := 1
-			for range us {
-				total *= 4
+		registered := map[string]bool{}
+		for _, s := range c.Registered {
+			registered[s] = true
+		}
+		// alphabet: the outcomes scripted for a scheme. An undeclared scheme with a registered authenticator is never
+		// scripted to accept (whether such an authenticator may be consulted at all is not stated); without one
+		// nothing reads the script
+		alphabet := func(s string) []string {
+			switch {
+			case declared(c, s):
+				return outcomes
+			case registered[s]:
+				return []string{"n", "z", "r"}
 			}
+			return []string{"n"}
+		}
+		total := 1
+		for _, s := range us {
+			total *= len(alphabet(s))
+		}
+		if len(us) <= 4 || (len(us) <= 6 && total <= 256) {
 			for v := 0; v < total; v++ {
 				o := map[string]string{}
 				x := v
 				for _, s := range us {
-					k := outcomes[x%4]
-					x /= 4
+					al := alphabet(s)
+					k := al[x%len(al)]
+					x /= len(al)
 					if k == "r" {
 						k = rejectKinds[r.Intn(len(rejectKinds))]
 					}
@@ -1351,7 +1454,8 @@ func genCase(r *rand.Rand, builds int, maxReq int) *Case {
 			for v := 0; v < 200; v++ {
 				o := map[string]string{}
 				for _, s := range us {
-					k := outcomes[r.Intn(4)]
+					al := alphabet(s)
+					k := al[r.Intn(len(al))]
 					if k == "r" {
 						k = rejectKinds[r.Intn(len(rejectKinds))]
 					}
